@@ -463,8 +463,33 @@ def iface_judge(cases, outs):
         for d in (frames, pages):
             for k in [k for k, e in d.items() if t in e[0]]:
                 del d[k]
-    def run_op(w, res, rec, now):
-        # rec: list of trigger sets to add recorded triggers to (page set and open recorders are all supersets here: one set suffices)
+    def run_op(w, res, rec, now, recorders=None):
+        # rec: the trigger set of the page / interface object; recorders: id -> set recorded in that recorder's scope
+        recorders = recorders if recorders is not None else {}
+        before = set(rec)
+        m = run_op1(w, res, rec, now)
+        if w[0] == "iattach":
+            recorders[w[1]] = set()
+        elif w[0] == "idetach":
+            want = recorders.pop(w[1], None)
+            if want is not None and res.startswith("detached"):
+                got = set() if res.split()[1] == "-" else set(res.split()[1].split(","))
+                if not want <= got:
+                    return m or f"recorder {w[1]} returned {sorted(got)} although {sorted(want - got)} was recorded in its scope"
+        else:
+            new = _recorded_by(w, res, now)
+            for sset in recorders.values():
+                sset.update(new)
+        return m
+    def _recorded_by(w, res, now):
+        if w[0] == "iadd":
+            return {w[1]}
+        if w[0] == "ifetch" and res.startswith("hit") and w[3] == "0" and live(frames.get(w[2]), now):
+            return set(frames[w[2]][0])
+        if w[0] == "istore" and w[6] == "0":
+            return (set() if w[4] == "-" else set(w[4].split(","))) | {w[2]}
+        return set()
+    def run_op1(w, res, rec, now):
         if w[0] == "iadd":
             rec.add(w[1])
         elif w[0] == "ifetch":
@@ -487,11 +512,12 @@ def iface_judge(cases, outs):
             frames.clear(); pages.clear()
         return None
     glob = set()
+    grecs = {}
     for k, (cs, o) in enumerate(zip(cases, outs)):
         w = cs.split()
         res = o.split("|")[0].strip()
         if w[0] == "inew":
-            frames, pages, glob = {}, {}, set()
+            frames, pages, glob, grecs = {}, {}, set(), {}
         elif w[0] == "ipage":
             now, key, tmo = int(w[1]), w[2], int(w[3])
             if res.startswith("cached"):
@@ -502,17 +528,18 @@ def iface_judge(cases, outs):
                     bad.append((k, f"page {key} served with a body that is not the one stored"))
             elif res.startswith("built"):
                 rec = set()
+                precs = {}
                 answers = res.split(None, 1)[1].split(";") if len(res.split(None, 1)) > 1 else []
                 ops = [] if w[5] == "-" else [x.split(":") for x in w[5].split(";")]
                 for i, opw in enumerate(ops):
-                    m = run_op(opw, answers[i] if i < len(answers) else "", rec, now)
+                    m = run_op(opw, answers[i] if i < len(answers) else "", rec, now, precs)
                     if m:
                         bad.append((k, m))
                 ent = (rec | {key, "5f553a" + (key if key != "-" else "")}, deadline(now, tmo), w[4])
                 pages[key] = ent
                 # store_page happened after the script: a rise inside the script of one of its own triggers does not count
-        elif w[0] in ("iadd", "ifetch", "istore", "irise", "iclear"):
-            m = run_op(w, res, glob, int(w[1]) if w[0] in ("ifetch", "istore") else 0)
+        elif w[0] in ("iadd", "ifetch", "istore", "irise", "iclear", "iattach", "idetach"):
+            m = run_op(w, res, glob, int(w[1]) if w[0] in ("ifetch", "istore") else 0, grecs)
             if m:
                 bad.append((k, m))
     return bad
